@@ -561,7 +561,7 @@ impl PageLoader {
         let bucket = loop {
             match load.probe_sequence.next(&self.meta_map) {
                 ProbeResult::Tombstone(_) => continue,
-                ProbeResult::Empty(_) => return false,
+                ProbeResult::Empty(_) | ProbeResult::Exhausted => return false,
                 ProbeResult::PossibleHit(bucket) => break BucketIndex(bucket),
             }
         };
@@ -661,6 +661,7 @@ fn allocate_bucket(
                 meta_map.set_full(bucket as usize, probe_seq.hash);
                 return Some(BucketIndex(bucket));
             }
+            ProbeResult::Exhausted => return None,
         }
     }
 }
@@ -686,6 +687,8 @@ enum ProbeResult {
     PossibleHit(u64),
     Empty(u64),
     Tombstone(u64),
+    /// Every bucket the probe sequence can reach has been visited.
+    Exhausted,
 }
 
 impl ProbeSequence {
@@ -701,6 +704,12 @@ impl ProbeSequence {
     // probe until there is a possible hit or an empty bucket is found
     fn next(&mut self, meta_map: &MetaMap) -> ProbeResult {
         loop {
+            // The sequence of visited buckets repeats after `2 * len` steps. Without an empty
+            // bucket, a tombstone or a matching tag on it there is nothing left to find.
+            if self.step > 2 * meta_map.len() as u64 {
+                return ProbeResult::Exhausted;
+            }
+
             // Triangular probing
             self.bucket += self.step;
             self.step += 1;
